@@ -18,6 +18,12 @@ fn main() {
         println!("generated {n} tests");
         return;
     }
+    if id == "C32-gen-fuzz" {
+        // development aid: generators must terminate on choice vectors that run dry anywhere
+        let n = c32::gen_fuzz();
+        println!("{n} truncated choice vectors: every generator call returned");
+        return;
+    }
     vcore::quiet_panics();
     let ctx = vcore::Ctx::new(&id, &args[1.min(args.len())..]);
     match id.as_str() {
